@@ -758,3 +758,25 @@ pub fn truncated_at(obs: &crate::client::ConnObs) -> Option<usize> {
         _ => None,
     }
 }
+
+/// Keeps a generated connection inside hyper's 30 s header-read timeout:
+/// raises the client->server pipe capacity so that the largest request of the
+/// script crosses the wire in under ~10 virtual seconds at the wire's worst
+/// latency.  (A client slower than that is legitimately disconnected; such
+/// stalls are generated on purpose elsewhere, not by accident.)
+pub fn fit_c2s(c: &mut ConnPlan) {
+    let largest = c
+        .steps
+        .iter()
+        .filter_map(|s| match s {
+            Step::Send { data, .. } => Some(data.0.len()),
+            _ => None,
+        })
+        .max()
+        .unwrap_or(0) as u64;
+    let lat = c.c2s.lat_max.max(1);
+    let need = (largest * lat).div_ceil(10_000) as usize + 1;
+    if c.c2s.cap < need {
+        c.c2s.cap = need;
+    }
+}
